@@ -109,11 +109,10 @@ Qed.
 (** ** a whole unheld history at constant duty cycle D and constant step follows the Euler recurrence of C04Core, whenever the
     law is linear in the speed at that duty cycle:  Tlaw w D = TDc (1 - w / (Dc W0)) *)
 Variables JJ DT D : R.
-Variable J dt0 : rq.
+Variable J : rq.
 Hypothesis HJ : equivalent_inertia c = Ok J.
 Hypothesis sJ : si J = Ok JJ.
 Hypothesis kJ : qk J = KInertiaMoment.
-Hypothesis sdt : si dt0 = Ok DT.
 Variables TDc Dc : R.
 Hypothesis Hlin : forall w, Tlaw w D = TDc * (1 - w / (Dc * W0)).
 Hypothesis Hnz : Dc <> 0 /\ W0 <> 0 /\ JJ <> 0.
@@ -122,7 +121,7 @@ Definition A_g : R := (TDc * Gg c - L) / JJ.
 Definition kap_g : R := TDc * Gg c * Rr c / (Dc * W0 * JJ).
 
 Definition uniform (h : list (rq * @snap RA)) : Prop :=
-  forall t s, In (t, s) h -> s_locked s = false /\ s_pwm s = D /\ (s_dt s = None \/ s_dt s = Some dt0).
+  forall t s, In (t, s) h -> s_locked s = false /\ s_pwm s = D /\ (forall dt, s_dt s = Some dt -> si dt = Ok DT).
 
 Theorem history_follows_euler_g (h : list (rq * @snap RA)) : hist_ok c load h -> uniform h -> h <> [] ->
   forall t0 s0 pre, h = (pre ++ [(t0, s0)])%list ->
@@ -142,12 +141,12 @@ Proof.
     destruct (IH Hu' ltac:(discriminate) t0 s0 pre E w0 p0 W00 P00 Hw0 Hp0 sw0 sp0 t1 s1 h' eq_refl) as (wk & pk & Hwk & Hpk & swk & spk).
     destruct (Hu t2 s2 (or_introl eq_refl)) as (Hlk2 & Hpw2 & Hdt2).
     destruct (Hu' t1 s1 (or_introl eq_refl)) as (Hlk1 & Hpw1 & _).
-    assert (Edt : dt = dt0) by (destruct Hdt2 as [Hn|Hs]; congruence). subst dt.
+    assert (sdt : si dt = Ok DT) by (apply Hdt2; exact Hd2).
     (* acceleration of s1 *)
     destruct (hist_ok_in _ _ _ _ _ Hh' (or_introl eq_refl)) as (v & ctl & J' & f & locked & prov & HJ' & _ & Hf1).
     rewrite HJ in HJ'. injection HJ' as <-.
     destruct (instant_acceleration_law ctl J t1 f v locked prov s1 JJ wk _ Hf1 Hlk1 sJ kJ Hwk swk) as (a1 & Ha1 & sa1).
-    destruct (step_ok_SI dt0 s1 s2 DT a1 wk pk _ _ _ (stepped_step_ok _ _ _ _ _ _ Hst) Hlk2 sdt Ha1 Hwk Hpk sa1 swk spk) as (w' & p' & Hw' & Hp' & sw' & sp').
+    destruct (step_ok_SI dt s1 s2 DT a1 wk pk _ _ _ (stepped_step_ok _ _ _ _ _ _ Hst) Hlk2 sdt Ha1 Hwk Hpk sa1 swk spk) as (w' & p' & Hw' & Hp' & sw' & sp').
     exists w', p'. split; [exact Hw'|]. split; [exact Hp'|].
     cbn [length C04Core.euler]. destruct (C04Core.euler A_g kap_g DT W00 P00 (length h')) as [th w] eqn:Ee. cbn [fst snd] in *.
     rewrite Hpw1, Hlin in sw', sp'.
@@ -225,11 +224,10 @@ Proof.
 Qed.
 
 Variables JJ DT D : R.
-Variable J dt0 : rq.
+Variable J : rq.
 Hypothesis HJ : equivalent_inertia c = Ok J.
 Hypothesis sJ : si J = Ok JJ.
 Hypothesis kJ : qk J = KInertiaMoment.
-Hypothesis sdt : si dt0 = Ok DT.
 Hypothesis HD : I0 / IM < Rabs D.
 Hypothesis Hpos : 0 <= I0 /\ 0 < IM /\ 0 < W0 /\ 0 < JJ.
 (** the coefficients of  w' = A - kap w  for the output element *)
@@ -241,7 +239,7 @@ Proof. destruct Hpos as (H1 & H2 & _). apply Rmult_le_pos; [lra|left; apply Rinv
 Lemma nz_currents : D <> 0 /\ W0 <> 0 /\ JJ <> 0.
 Proof. destruct Hpos as (H1 & H2 & H3 & H4). generalize pmin_nonneg; intro Hp. repeat split; try lra. intros E0. assert (HD' := HD). rewrite E0, Rabs_R0 in HD'. lra. Qed.
 
-Theorem history_follows_euler (h : list (rq * @snap RA)) : hist_ok c load h -> uniform D dt0 h -> h <> [] ->
+Theorem history_follows_euler (h : list (rq * @snap RA)) : hist_ok c load h -> uniform DT D h -> h <> [] ->
   forall t0 s0 pre, h = (pre ++ [(t0, s0)])%list ->
   forall w0 p0 W00 P00, lastq (s_spd s0) = Ok w0 -> lastq (s_pos s0) = Ok p0 -> si w0 = Ok W00 -> si p0 = Ok P00 ->
   forall t s rest, h = (t, s) :: rest ->
@@ -249,13 +247,13 @@ Theorem history_follows_euler (h : list (rq * @snap RA)) : hist_ok c load h -> u
     si wk = Ok (snd (C04Core.euler A_lin kap_lin DT W00 P00 (length rest))) /\
     si pk = Ok (fst (C04Core.euler A_lin kap_lin DT W00 P00 (length rest))).
 Proof.
-  exact (history_follows_euler_g c load W0 L _ law_currents load_const JJ DT D J dt0 HJ sJ kJ sdt (TDs D) D (T_doc_linear D pmin_nonneg HD) nz_currents h).
+  exact (history_follows_euler_g c load W0 L _ law_currents load_const JJ DT D J HJ sJ kJ (TDs D) D (T_doc_linear D pmin_nonneg HD) nz_currents h).
 Qed.
 
 Hypothesis Hkap : 0 < kap_lin.
 Hypothesis Hx : kap_lin * DT <= 1/5.
 Hypothesis HDT : 0 < DT.
-Theorem model_converges (h : list (rq * @snap RA)) : hist_ok c load h -> uniform D dt0 h -> h <> [] ->
+Theorem model_converges (h : list (rq * @snap RA)) : hist_ok c load h -> uniform DT D h -> h <> [] ->
   forall t0 s0 pre, h = (pre ++ [(t0, s0)])%list ->
   forall w0 p0 W00 P00, lastq (s_spd s0) = Ok w0 -> lastq (s_pos s0) = Ok p0 -> si w0 = Ok W00 -> si p0 = Ok P00 ->
   forall t s rest, h = (t, s) :: rest ->
@@ -264,7 +262,7 @@ Theorem model_converges (h : list (rq * @snap RA)) : hist_ok c load h -> uniform
     Rabs (Wk - C04Core.w_exact A_lin kap_lin W00 (INR k * DT)) <= 2/5 * (kap_lin * DT) * Rabs (W00 - A_lin / kap_lin) /\
     Rabs (Pk - C04Core.th_exact A_lin kap_lin W00 P00 (INR k * DT)) <= DT * Rabs (W00 - A_lin / kap_lin).
 Proof.
-  exact (model_converges_g c load W0 L _ law_currents load_const JJ DT D J dt0 HJ sJ kJ sdt (TDs D) D (T_doc_linear D pmin_nonneg HD) nz_currents Hkap Hx HDT h).
+  exact (model_converges_g c load W0 L _ law_currents load_const JJ DT D J HJ sJ kJ (TDs D) D (T_doc_linear D pmin_nonneg HD) nz_currents Hkap Hx HDT h).
 Qed.
 End Linear.
 
@@ -290,11 +288,10 @@ Proof.
 Qed.
 
 Variables JJ DT D : R.
-Variable J dt0 : rq.
+Variable J : rq.
 Hypothesis HJ : equivalent_inertia c = Ok J.
 Hypothesis sJ : si J = Ok JJ.
 Hypothesis kJ : qk J = KInertiaMoment.
-Hypothesis sdt : si dt0 = Ok DT.
 Hypothesis Hpos : 0 < W0 /\ 0 < JJ.
 Definition A_nc : R := A_g c L JJ TM.
 Definition kap_nc : R := kap_g c W0 JJ TM 1.
@@ -306,7 +303,7 @@ Proof. destruct Hpos. repeat split; lra. Qed.
 Hypothesis Hkap : 0 < kap_nc.
 Hypothesis Hx : kap_nc * DT <= 1/5.
 Hypothesis HDT : 0 < DT.
-Theorem model_converges_nocurrent (h : list (rq * @snap RA)) : hist_ok c load h -> uniform D dt0 h -> h <> [] ->
+Theorem model_converges_nocurrent (h : list (rq * @snap RA)) : hist_ok c load h -> uniform DT D h -> h <> [] ->
   forall t0 s0 pre, h = (pre ++ [(t0, s0)])%list ->
   forall w0 p0 W00 P00, lastq (s_spd s0) = Ok w0 -> lastq (s_pos s0) = Ok p0 -> si w0 = Ok W00 -> si p0 = Ok P00 ->
   forall t s rest, h = (t, s) :: rest ->
@@ -315,6 +312,6 @@ Theorem model_converges_nocurrent (h : list (rq * @snap RA)) : hist_ok c load h 
     Rabs (Wk - C04Core.w_exact A_nc kap_nc W00 (INR k * DT)) <= 2/5 * (kap_nc * DT) * Rabs (W00 - A_nc / kap_nc) /\
     Rabs (Pk - C04Core.th_exact A_nc kap_nc W00 P00 (INR k * DT)) <= DT * Rabs (W00 - A_nc / kap_nc).
 Proof.
-  exact (model_converges_g c load W0 L (fun w _ => TM * (1 - w / W0)) law_nocurrents load_const JJ DT D J dt0 HJ sJ kJ sdt TM 1 nc_linear nz_nc Hkap Hx HDT h).
+  exact (model_converges_g c load W0 L (fun w _ => TM * (1 - w / W0)) law_nocurrents load_const JJ DT D J HJ sJ kJ TM 1 nc_linear nz_nc Hkap Hx HDT h).
 Qed.
 End NoCurrents.
